@@ -12,6 +12,8 @@ import PqlModel.Props.C11Compile
 import PqlModel.Props.C02EndToEndSource
 import PqlModel.Props.C02SplitImperative
 import PqlModel.Props.C02ProgramNames
+import PqlModel.Props.C02SplitIR
+import PqlModel.Props.C03JoinCondIR
 #print axioms Pql.C03.C03_bare_key_rewrite
 #print axioms Pql.C03.C03_quoted_key_not_rewritten
 #print axioms Pql.C03.C03_two_conditions_anded
@@ -54,3 +56,8 @@ import PqlModel.Props.C02ProgramNames
 #print axioms Pql.C03.Cex.C03_needs_namesOk_source
 #print axioms Pql.C03.Cex.C03_join_sort_needs_rect
 #print axioms Pql.C03.Cex.C03_join_sort_needs_aliasFree
+#print axioms Pql.JoinCondIR.C03_rewriteSimpleJoinCondition_ir
+#print axioms Pql.JoinCondIR.C03_buildJoinCondition_ir
+#print axioms Pql.JoinCondIR.rewrite_ir
+#print axioms Pql.JoinCondIR.build_ir
+#print axioms Pql.JoinCondIR.builtin_all
